@@ -159,7 +159,8 @@ pub fn check_image(obj: &ObjectFile, ro: &refasm::RefObj, debug: bool, text: &st
         let extra: Vec<String> = got.keys().filter(|a| !ro.image.contains_key(a)).take(4).map(|a| format!("x{a:04X} defined but should not be")).collect();
         fail(out, "C01", if !extra.is_empty() && diff.is_empty() { "extra-address" } else { "wrong-word" }, format!("image differs: {diff:?} {extra:?}\n{text}"));
     }
-    if debug != obj.symbol_table().is_some() { fail(out, "C01", "symbol-table-presence", format!("debug={debug} but symbol table present={}", obj.symbol_table().is_some())); }
+    // with debug symbols requested the symbol table must exist (label checks rely on it); without them the property is silent
+    if debug && obj.symbol_table().is_none() { fail(out, "C01", "symbol-table-missing", "assemble_debug returned an object without a symbol table".to_string()); }
 }
 
 pub fn spellings(name: &str) -> Vec<String> {
